@@ -1,7 +1,40 @@
 """C06 - values reach the database unchanged: inline literals, LIKE patterns, bound parameters, identifiers.
 
-placeholder (filled in below)
+CrossHair runs the REAL builder / value classes / parameter machinery / quote_name / StringMixin._like (checks/h_c06.py)
+on symbolic strings, integers, key sequences and names and hands the resulting `(sql, arguments)` - what pony would pass
+to `cursor.execute` - to a reference model of the receiving side written from the documented rules: the driver's `%`
+interpolation for format/pyformat, the dialect's lexer (string literals, quoted identifiers, placeholders), PEP 249
+placeholder binding, and SQL LIKE with ESCAPE.  Asserted: the token stream the server sees has exactly the intended
+structure and every value token IS the supplied value; LIKE patterns decode to the canonical pattern of the operand.
+
+Four parts (DESIGN.md "### C06"):
+ 1 inline literals   lit_str_<dialect>, lit_str_styles (generic Value x five styles), lit_int, lit_bool_none, mod_percent
+ 2 LIKE              like_const_<dialect> (real escaping of a constant operand), like_nonconst_<dialect> (parameter / column
+                     operand: the REPLACE chain is evaluated over the lexed statement), like_lemma (the canonical pattern means
+                     startswith / endswith / in under the reference matcher; the matcher is compared with real SQLite at start-up)
+ 3 numbering         numbering_<style> for the five styles (<= 4 occurrences of <= 3 distinct keys, one a tuple item),
+                     numbering_dialects (shipped builders), param_converter (str converter on the way)
+ 4 identifiers       ident_<dialect>: alias.column, compound (schema, table) names through COLUMN, FROM and provider.quote_name
+
+Regions where pony does not meet the property are carved out by preconditions into harnesses of their own (so the
+remaining region must CONFIRM and a new failure there still surfaces); their counterexamples get stable keys:
+  mysql-inline-literal-backslash                    lit_str_mysql_backslash      (design F7; model-only, depends on sql_mode)
+  like-constant-operand-backslash-default-escape    like_const_backslash_{postgres,mysql}
+  identifier-percent-under-format-paramstyle        ident_percent_{postgres,mysql}
+  oracle-identifier-double-quote                    ident_oracle_dquote
+
+Deviations from the design text:
+ * LIKE is decided in two steps instead of one harness over (s, operand): (a) pony's statement, lexed and evaluated, yields a
+   pattern whose decoding under the dialect's LIKE rules is the canonical item list of the operand (symbolic operand only,
+   therefore valid for EVERY left-hand string), (b) like_lemma: canonical items <=> Python semantics for symbolic s and operand.
+   The single-harness form (both strings symbolic through translator, builder, lexer, evaluator and matcher) did not confirm in 120 s.
+ * the statement is evaluated from its lexed TEXT by ~40 lines in h_c06.py (sql_eval), not by engine.symsql.
+ * bytes / date / datetime / timedelta / float / Decimal literals realise under CrossHair (hexlify, isoformat, '%d'): they are
+   checked as a labelled concrete tie, not by the solver. E4 (format-string rewriting) does not exist in the framework yet.
+ * integer literals are bounded to |n| < 10**6 (10**9 thorough): the reference lexer walks the digits.
+ * CompositeParam (JSON paths) is not exercised.
 """
+import itertools, os, time
 from engine.core import Report, Ob, HOLDS, CEX, INCONCLUSIVE
 from engine import ch
 
@@ -9,13 +42,14 @@ LITERALS = ('lit_str_sqlite', 'lit_str_postgres', 'lit_str_oracle', 'lit_str_mys
             'lit_str_mysql_backslash', 'lit_str_styles', 'lit_int', 'lit_bool_none', 'mod_percent')
 NUMBERING = tuple('numbering_' + s for s in ('qmark', 'format', 'numeric', 'named', 'pyformat')) + ('numbering_dialects', 'param_converter')
 IDENTS = ('ident_sqlite', 'ident_postgres', 'ident_mysql', 'ident_oracle', 'ident_oracle_dquote', 'ident_percent_postgres', 'ident_percent_mysql')
-LIKES = ('like_const_sqlite', 'like_const_oracle', 'like_const_postgres', 'like_const_mysql',
+LIKES = ('like_lemma', 'like_const_sqlite', 'like_const_oracle', 'like_const_postgres', 'like_const_mysql',
          'like_const_backslash_postgres', 'like_const_backslash_mysql',
          'like_nonconst_sqlite', 'like_nonconst_postgres', 'like_nonconst_mysql', 'like_nonconst_oracle')
 HARNESSES = LITERALS + NUMBERING + IDENTS + LIKES
 
 
 def classify(spec, cex):
+    """stable keys for the carved-out regions only (each such harness has the region as its precondition)"""
     fn = spec['fn']
     if fn == 'lit_str_mysql_backslash' and '\\' in cex.get('s', ''):
         return 'mysql-inline-literal-backslash'
@@ -29,9 +63,266 @@ def classify(spec, cex):
 
 
 def run(tier, seed, only=None):
-    rep = Report('C06', 'other', 'x')
-    T = 120 if tier == 'quick' else 900
-    specs = [dict(module='checks.h_c06', fn=f, cond_timeout=T, path_timeout=T / 2) for f in HARNESSES]
+    from pony.orm import sqlbuilding as sb, sqltranslation as st, dbapiprovider as dp
+    rep = Report('C06', 'other',
+                 'CrossHair symbolic execution of the real SQL builder, value classes, parameter adapter, quote_name and '
+                 'StringMixin LIKE translation: the value / operand / identifier / parameter-key sequence is symbolic; the (sql, arguments) '
+                 'pair handed to cursor.execute is lexed by a reference model of the driver and the dialect and must contain exactly the '
+                 'intended tokens with exactly the supplied values. Only "Confirmed over all paths" counts as holding.')
+    T = 150 if tier == 'quick' else 900
+    if tier == 'thorough':      # read by checks/h_c06.py in the worker processes
+        os.environ.update({'C06_N_LIT': '4', 'C06_N_X': '3', 'C06_N_S': '4', 'C06_N_ID': '3', 'C06_N_INT': '9'})
+    from checks import h_c06 as h
+    rep.fn(sb.SQLBuilder.__init__, sb.SQLBuilder.make_param, sb.SQLBuilder.PARAM, sb.SQLBuilder.VALUE, sb.SQLBuilder.MOD, sb.SQLBuilder.COLUMN,
+           sb.SQLBuilder.LIKE, sb.SQLBuilder.NOT_LIKE, sb.SQLBuilder.REPLACE, sb.SQLBuilder.CONCAT, sb.SQLBuilder.compound_name,
+           sb.Param.eval, sb.Param.__str__, sb.Value.__str__, sb.Value.quote_str, sb.flat, dp.DBAPIProvider.quote_name,
+           st.StringMixin._like, st.StringMixin.contains, st.StringMixin.call_startswith, st.StringMixin.call_endswith)
+    for p in h.PROVIDERS:
+        prov = h.provider(p)
+        rep.fn(prov.sqlbuilder_cls.value_class.__str__)
+        if 'CONCAT' in prov.sqlbuilder_cls.__dict__: rep.fn(prov.sqlbuilder_cls.CONCAT)
+        if 'MOD' in prov.sqlbuilder_cls.__dict__: rep.fn(prov.sqlbuilder_cls.MOD)
+    specs = [dict(module='checks.h_c06', fn=f, cond_timeout=T, path_timeout=T / 2, setup='setup') for f in HARNESSES]
     if only: specs = [s for s in specs if only in s['fn']]
+    rep.bounds = {
+        'inline string literal': 'len <= %d over %r (MySQL default sql_mode: without the backslash; the backslash region is a harness of its own)' % (h.N_LIT, h.LIT_ALPHA),
+        'inline integer': '|n| < 10**%d, all four dialects' % h.N_INT,
+        'LIKE operand': 'len <= %d over %r (left-hand string: unbounded through the canonical-pattern argument; like_lemma: len <= %d)' % (h.N_X, h.LIKE_ALPHA_B, h.N_S),
+        'parameters': '<= %d occurrences of <= 3 distinct keys (plain variable, two items of a tuple variable), values unbounded ints; five paramstyles' % h.N_PAR,
+        'identifiers': 'alias len <= %d, name len <= %d over %r (+ %% where the statement is not %%-interpolated)' % (h.N_ID - 1, h.N_ID, h.ID_ALPHA),
+        'dialects': list(h.PROVIDERS)}
+    rep.assumptions = [
+        'receiving side = reference model in checks/h_c06.py: format/pyformat drivers compute `sql % args` whenever an argument object is passed '
+        '(pony builders always pass one); standard-conforming string literals on SQLite/PostgreSQL/Oracle; MySQL default sql_mode (backslash escapes, '
+        '"..." is a string) unless stated; Oracle quoted identifiers cannot contain a double quote; LIKE default escape is the backslash on PostgreSQL/MySQL and none on SQLite/Oracle',
+        'PostgreSQL / MySQL / Oracle: real translator, builder and provider classes over driver stubs and a fake pool (no server in the sandbox): findings there are model-only',
+        'LIKE harnesses build real monads (StringExprMonad / StringConstMonad / StringParamMonad) inside the real translator of a real query and call the real '
+        'call_startswith / call_endswith / contains; operands are NOT NULL; Oracle\'s empty-string-is-NULL rule is not modelled',
+        'databases, mappings and translators are created in the harness setup, outside the tracer; pony.orm.core.time is frozen there']
+    rep.trusted = ['crosshair-tool 0.0.110', 'z3', 'ref_percent / ref_lex / ref_bind / like_items / like_match / sql_eval in checks/h_c06.py',
+                   'sqlite3 (validation of the reference LIKE matcher, end-to-end tie)']
     ch.run_harnesses(rep, specs, classify)
+    if not only or only == 'tie':
+        for f in (tie_matcher_vs_sqlite, tie_sqlite_end_to_end, tie_monads_vs_real_query, tie_other_literals):
+            t0 = time.time()
+            try:
+                f(rep, tier)
+            except Exception as e:      # a tie that cannot run is a harness error, not a pass
+                import traceback
+                rep.harness_errors.append('%s: %s' % (f.__name__, traceback.format_exc()[-600:]))
     return rep
+
+
+def _strs(alpha, n):
+    for k in range(n + 1):
+        for t in itertools.product(alpha, repeat=k):
+            yield ''.join(t)
+
+
+def tie_matcher_vs_sqlite(rep, tier):
+    """Concrete validation of the reference LIKE matcher (h_c06.ref_like) against real SQLite on a connection opened by pony
+    (case_sensitive_like pragma as pony sets it), with and without ESCAPE '!'."""
+    from checks import h_c06 as h
+    from pony.orm import db_session
+    db = h.get_db('sqlite')
+    alpha = '%_!aA\\'
+    n_s, n_p = (2, 3) if tier == 'quick' else (3, 4)
+    bad, cnt = None, 0
+    with db_session:
+        cur = db.get_connection().cursor()
+        for s in _strs(alpha, n_s):
+            for p in _strs(alpha, n_p):
+                for esc in (None, '!'):
+                    try: want = h.ref_like(s, p, esc)
+                    except h.PatternError: want = False       # SQLite: a pattern ending in the escape character matches nothing
+                    if esc is None: cur.execute('select ? like ?', (s, p))
+                    else: cur.execute("select ? like ? escape '!'", (s, p))
+                    got = bool(cur.fetchone()[0])
+                    cnt += 1
+                    if got != want and bad is None: bad = (s, p, esc, got, want)
+    if bad is None:
+        rep.add(Ob('tie:ref_like == SQLite LIKE (%d pairs)' % cnt, 'concrete-tie', HOLDS, detail='strings len <= %d, patterns len <= %d over %r' % (n_s, n_p, alpha)))
+    else:
+        rep.add(Ob('tie:ref_like == SQLite LIKE', 'concrete-tie', INCONCLUSIVE, detail='reference matcher disagrees with SQLite on %r' % (bad,)))
+
+
+def tie_sqlite_end_to_end(rep, tier):
+    """Concrete tie through the public API on real SQLite: constant / parameter / column operands of startswith, endswith, in,
+    not in, and inline string literals in `==`, for every string of the bound; the backend's answer must equal Python's."""
+    from checks import h_c06 as h
+    from pony.orm import db_session, select, commit
+    from pony.orm import core
+    db = h.get_db('sqlite')
+    T = db.T
+    vals = list(_strs(h.LIKE_ALPHA_B, 2)) + ["'", "''", "a'", '"', 'é%', '%s', '?', ':p1']
+    with db_session:
+        if not select(t for t in T).exists():
+            for s in vals:
+                for x in vals:
+                    T(s=s, x=x)
+            commit()
+    rows = [(s, x) for s in vals for x in vals]
+    pyops = {'startswith': lambda s, x: s.startswith(x), 'endswith': lambda s, x: s.endswith(x), 'in': lambda s, x: x in s,
+             'not in': lambda s, x: x not in s, '==': lambda s, x: s == x}
+    src = {'startswith': 't.s.startswith(%s)', 'endswith': 't.s.endswith(%s)', 'in': '%s in t.s', 'not in': '%s not in t.s', '==': 't.s == %s'}
+    n = 0
+    fails = []
+    with db_session:
+        for op in ('startswith', 'endswith', 'in', 'not in', '=='):
+            for kind in ('const', 'param', 'col'):
+                for x in ([None] if kind == 'col' else vals):
+                    if op == '==' and x == '': continue       # `t.s == ''` is translated specially (Oracle compatibility), not a literal question
+                    operand = repr(x) if kind == 'const' else 'x' if kind == 'param' else 't.x'
+                    q = 'select((t.s, t.x) for t in T if %s)' % (src[op] % operand)
+                    got = sorted(set(core.select(q[7:-1], {'T': T}, {'x': x})[:]))
+                    want = sorted(set((s, xx) for (s, xx) in rows if pyops[op](s, xx if kind == 'col' else x)))
+                    n += 1
+                    if got != want:
+                        fails.append((op, kind, x, q))
+    if not fails:
+        rep.add(Ob('tie:real SQLite end-to-end (%d queries x %d rows)' % (n, len(rows)), 'concrete-tie', HOLDS))
+    for op, kind, x, q in fails[:5]:
+        rep.add(Ob('tie:real SQLite %s/%s operand %r' % (op, kind, x), 'concrete-tie', CEX, cex={'op': op, 'kind': kind, 'x': x, 'query': q},
+                   reproduced=True, detail='rows returned by SQLite differ from Python\'s %s' % op,
+                   replay=_E2E_REPLAY % {'x': x, 'q': q, 'py': {'startswith': 's.startswith(X)', 'endswith': 's.endswith(X)', 'in': 'X in s', 'not in': 'X not in s', '==': 's == X'}[op],
+                                         'xx': 'xx' if kind == 'col' else 'x'}))
+
+
+_E2E_REPLAY = '''from pony.orm import *
+db = Database('sqlite', ':memory:')
+class T(db.Entity):
+    s = Optional(str)
+    x = Optional(str)
+db.generate_mapping(create_tables=True)
+vals = ['', '%%', '_', '!', 'a', '\\\\', 'a%%', '%%a', '!%%', "a'", 'a_']
+x = %(x)r
+with db_session:
+    for s in vals:
+        for xx in vals: T(s=s, x=xx)
+    flush()
+    got = sorted(set(%(q)s[:]))
+    want = sorted(set((s, xx) for s in vals for xx in vals if (lambda s, X: %(py)s)(s, %(xx)s)))
+print('got ', got); print('want', want)
+raise SystemExit(0 if got == want else 1)
+'''
+
+
+def tie_monads_vs_real_query(rep, tier):
+    """The LIKE harnesses call the monad methods directly (a symbolic constant cannot be spelled in query source text).
+    Tie: for concrete operands the WHERE condition of a real query - public select() through decompiler, translator and
+    builder - is the same text as the statement the harnesses obtain from like_sql()."""
+    from checks import h_c06 as h
+    from pony.orm import db_session
+    from pony.orm import core
+    bad, n = [], 0
+    src = ('t.s.startswith(%s)', 't.s.endswith(%s)', '%s in t.s', '%s not in t.s')
+    for p in h.PROVIDERS:
+        db = h.get_db(p)
+        with db_session:
+            for op in range(4):
+                for kind in ('const', 'param', 'col'):
+                    for x in ('a', '%', 'a_!', "'\\"):
+                        if kind == 'col' and x != 'a': continue
+                        operand = repr(x) if kind == 'const' else 'x' if kind == 'param' else 't.x'
+                        q = core.select('t.s for t in T if ' + src[op] % operand, {'T': db.T}, {'x': x})
+                        sql, args = q._construct_sql_and_arguments()[:2]
+                        cond, hargs = h.like_sql(p, op, kind, x)
+                        n += 1
+                        where = sql.split('WHERE ', 1)[1].strip().replace('t-1', 't')      # pony names the alias t-1 because the entity is called T
+                        if p == 'oracle':       # Oracle: column names are upper-cased by the mapping; Optional(str) is nullable ('' is NULL)
+                            where = where.replace('"S"', '"s"').replace('"X"', '"x"')
+                            tail = ' OR "t"."s" IS NULL)'
+                            if where.startswith('(') and where.endswith(tail): where = where[1:-len(tail)]
+                        if where != cond or (kind == 'param' and (list(args.values()) if isinstance(args, dict) else list(args)) != [x]):
+                            bad.append((p, op, kind, x, where, cond))
+    if not bad:
+        rep.add(Ob('tie:monad-level statement == WHERE clause of the real query (%d queries, 4 dialects)' % n, 'concrete-tie', HOLDS))
+    else:
+        rep.add(Ob('tie:monad-level statement == WHERE clause of the real query', 'concrete-tie', INCONCLUSIVE,
+                   detail='harness and public API disagree: %r' % (bad[0],)))
+
+
+def tie_other_literals(rep, tier):
+    """Literal types whose rendering realises under CrossHair (hexlify, isoformat, '%d'): concrete family per dialect.
+    The rendered text must lex to the documented literal form and denote the value."""
+    import datetime as dt
+    from decimal import Decimal
+    from checks import h_c06 as h
+    D, TS, TD = dt.date, dt.datetime, dt.timedelta
+    values = [b'', b'\x00', b"'", b'\xff\x27%s', bytes(range(0, 256, 17)),
+              D(1, 1, 1), D(2024, 2, 29), D(9999, 12, 31),
+              TS(1, 1, 1), TS(2024, 2, 29, 23, 59, 59), TS(2024, 2, 29, 23, 59, 59, 1), TS(9999, 12, 31, 23, 59, 59, 999999),
+              TD(0), TD(seconds=1), TD(microseconds=1), TD(days=1, seconds=3661, microseconds=50), TD(days=-1), TD(microseconds=-1),
+              TD(days=-3, seconds=7, microseconds=9), TD(days=4000, seconds=86399),
+              0.0, -0.0, 1.5, -2.25, 1e-5, 1e22, 1.7976931348623157e308, 5e-324, 0.1,
+              Decimal('0'), Decimal('-1.50'), Decimal('1E+2'), Decimal('123456789.000000001')]
+    n, bad = 0, []
+    for p in h.PROVIDERS:
+        prov = h.provider(p)
+        for v in values:
+            sql, adapter = h.build(prov, ['EQ', ['COLUMN', None, 'c'], ['VALUE', v]])
+            toks = h.db_sees(sql, adapter({}), p, prov.paramstyle)
+            n += 1
+            try:
+                good = toks is not None and toks[:2] == [('id', 'c'), ('p', '=')] and _denotes(p, toks[2:], v)
+            except Exception:
+                good = False
+            if not good: bad.append((p, v, sql))
+    if not bad:
+        rep.add(Ob('tie:bytes/date/datetime/timedelta/float/Decimal literals (%d renderings)' % n, 'concrete-tie', HOLDS))
+    for p, v, sql in bad[:5]:
+        rep.add(Ob('tie:%s literal %r' % (p, v), 'concrete-tie', CEX, cex={'dialect': p, 'value': repr(v), 'sql': sql}, reproduced=True,
+                   detail='rendered as %s' % sql, replay='# %s: VALUE %r rendered as %s\nraise SystemExit(1)\n' % (p, v, sql)))
+
+
+def _num(toks):
+    """numeric literal tokens -> text ('-', digits, '.', exponent)"""
+    out = ''
+    for k, t in toks:
+        if k not in ('w', 'p') or not all(c in '0123456789.eE+-' for c in t): raise ValueError(toks)
+        out += t
+    return out
+
+
+def _denotes(p, toks, v):
+    import datetime as dt
+    from decimal import Decimal
+    def words(ts): return [t[1].upper() for t in ts if t[0] == 'w']
+    if isinstance(v, bytes):
+        return len(toks) == 2 and toks[0] in (('w', 'X'), ('w', 'x')) and toks[1][0] == 'str' and bytes.fromhex(toks[1][1]) == v
+    if isinstance(v, dt.datetime):
+        if p == 'sqlite': lit = toks
+        else:
+            if toks[0] != ('w', 'TIMESTAMP'): return False
+            lit = toks[1:]
+        return len(lit) == 1 and lit[0][0] == 'str' and dt.datetime.strptime(lit[0][1], '%Y-%m-%d %H:%M:%S.%f') == v and len(lit[0][1]) == 26
+    if isinstance(v, dt.date):
+        if p == 'sqlite': lit = toks
+        else:
+            if toks[0] != ('w', 'DATE'): return False
+            lit = toks[1:]
+        y, m, d = lit[0][1].split('-')
+        return len(lit) == 1 and lit[0][0] == 'str' and (len(y), len(m), len(d)) == (4, 2, 2) and dt.date(int(y), int(m), int(d)) == v
+    if isinstance(v, dt.timedelta):
+        if p == 'sqlite':       # a REAL number of days that reads back (timedelta(days=real), as SQLiteTimedeltaConverter.sql2py does) as the value
+            return dt.timedelta(days=float(_num(toks))) == v
+        if toks[0] != ('w', 'INTERVAL') or toks[1][0] != 'str': return False
+        unit = words(toks[2:])
+        text = toks[1][1]
+        if p == 'mysql':
+            if unit != (['HOUR_MICROSECOND'] if '.' in text else ['HOUR_SECOND']): return False
+        elif unit != ['HOUR', 'TO', 'SECOND']: return False
+        neg = text.startswith('-')
+        hh, mm, ss = text.lstrip('-').split(':')
+        sec, _, frac = ss.partition('.')
+        if frac and len(frac) != 6: return False
+        if not (0 <= int(mm) < 60 and 0 <= int(sec) < 60): return False
+        td = dt.timedelta(hours=int(hh), minutes=int(mm), seconds=int(sec), microseconds=int(frac or 0))
+        return (-td if neg else td) == v
+    if isinstance(v, float):
+        import math
+        t = float(_num(toks))
+        return t == v and math.copysign(1, t) == math.copysign(1, v)
+    if isinstance(v, Decimal):
+        return Decimal(_num(toks)) == v
+    return False
